@@ -25,7 +25,6 @@ abbrev Str := List UInt8
 /-! ### byte-string helpers (package strings) -/
 
 def hasPrefix (s p : Str) : Bool := p.isPrefixOf s
-def hasSuffix (s p : Str) : Bool := p.isSuffixOf s
 
 /-- `strings.TrimPrefix` -/
 def trimPrefix (s p : Str) : Str := if p.isPrefixOf s then s.drop p.length else s
@@ -202,10 +201,15 @@ deriving Repr, DecidableEq
 
 def slash : UInt8 := 47
 
+/-- `strings.HasSuffix(a, "/")` -/
+def endsWithSlash (a : Str) : Bool := a.getLast? == some slash
+/-- `strings.HasPrefix(b, "/")` -/
+def startsWithSlash (b : Str) : Bool := b.head? == some slash
+
 /-- `singleJoiningSlash` -/
 def singleJoiningSlash (a b : Str) : Str :=
-  let aSlash := hasSuffix a [slash]
-  let bSlash := hasPrefix b [slash]
+  let aSlash := endsWithSlash a
+  let bSlash := startsWithSlash b
   if aSlash && bSlash then a ++ b.drop 1
   else if !aSlash && !bSlash && b != [] then a ++ [slash] ++ b
   else a ++ b
